@@ -18,7 +18,7 @@ DEFINITE = ('postcondition not satisfied', 'precondition not satisfied', 'assert
             'loop invariant', 'decreases not satisfied', 'failed this postcondition',
             'could not prove termination', 'recommendation not met', 'cannot show invariant holds',
             'invariant not satisfied at end of loop body', 'invariant not satisfied before loop',
-            'unreachable', 'panic')
+            'unreachable', 'panic', 'requires not satisfied')
 UNDECIDED_MARKS = ('resource limit', 'rlimit', 'timed out', 'timeout', 'internal error', 'ICE', 'panicked at')
 
 
@@ -127,6 +127,17 @@ def _verify_one(repo, workdir, name, mode, roots, tag):
         fnid = item = None
         if d['line'] and d['file'] and os.path.basename(d['file']) == base and d['line'] - 1 < len(linemap):
             item, fnid = linemap[d['line'] - 1]
+        if fnid is None:
+            # the primary span may be a trait-level `ensures` (contract stated on the trait declaration);
+            # the diagnostic then also shows the implementing function ("at the end of the function body"):
+            # attribute the failure to the first extracted function any gutter line of the diagnostic lies in
+            for tl in d['text']:
+                mm = re.match(r'^\s*(\d+) \|', tl)
+                if mm:
+                    ln = int(mm.group(1))
+                    if 0 < ln <= len(linemap) and linemap[ln - 1][1]:
+                        item, fnid = linemap[ln - 1]
+                        break
         clause = lines[d['line'] - 1].strip() if d['line'] and d['line'] - 1 < len(lines) else ''
         kind = ('overflow' if 'overflow' in low else 'post' if 'postcondition' in low else 'pre' if 'precondition' in low
                 else 'assert' if 'assert' in low else 'invariant' if 'invariant' in low else 'other')
